@@ -161,6 +161,9 @@ func (in *Interp) eval(e *CExpr, env map[string]CV) CV {
 			}
 		}
 		return in.eval(e.X, n)
+	case "deref":
+		v := in.eval(e.X, env)
+		return v // pointers are dumped as the value they point to
 	case "unop":
 		if e.Str == "!" {
 			return cvBool(!in.evalBool(e.X, env))
